@@ -41,7 +41,8 @@ BOUNDS = {
     "quick": {"literal values": "unsuffixed: 0..2**63-1, u-suffixed: 0..2**64-1 (symbolic); literals inside a shift count: "
                                 f"0..{SHIFT_COUNT_MAX}; literals inside the right factor of a product: 0..65535",
               "expression shapes": "depth 1 exhaustive (18 binary operators, unary - ~ ! +, ?:) over leaves L, Lu, (-L), (-Lu), each "
-                                   "observed through its truth value and through == / < against a further symbolic literal (depth 2)",
+                                   "observed through its truth value and through == against a further symbolic literal (depth 2); == -L, == Lu, < L, Lu < on "
+                                   "rotating subsets of the shapes without / and %",
               "directives": "#if and #elif"},
     "thorough": {"literal values": "as quick",
                  "expression shapes": "as quick + depth 2/3 trees sampled by VERIF_SEED",
@@ -194,10 +195,16 @@ def observers(e, n, full):
 def quick_templates():
     T = []
     for k, (e, n) in enumerate(depth1()):
-        signed_only = "u" not in csem.render(e, lambda i, s: s)
-        # all depth-1 shapes through truth value and == L / == -L; the mixed-signedness observers on a rotating subset
-        for o in observers(e, n, full=(k % 4 == 0)):
-            T.append(("if", o))
+        heavy = e[0] in ("div", "mod")
+        # every depth-1 shape through its truth value and through == L
+        T.append(("if", e))
+        T.append(("if", ["eq", e, lit(n, "")]))
+        if not heavy:
+            # further observers (negative / unsigned comparands, orderings) on rotating subsets
+            if k % 2 == 0:
+                T.append(("if", ["eq", e, ["neg", lit(n, "")]]))
+            if k % 4 == 0:
+                T += [("if", ["eq", e, lit(n, "u")]), ("if", ["lt", e, lit(n, "")]), ("if", ["lt", lit(n, "u"), e])]
         if k % 8 == 0:
             T.append(("elif", e))
             T.append(("elif", ["eq", e, lit(n, "")]))
